@@ -43,8 +43,10 @@ def correlation_centroid(im, ref, threshold=0., padding=1):
 
         cx, cy = centre_of_gravity(corr, threshold=threshold)
 
-        cy -= float(ny) / 2. * (float(padding) - 1)
-        cx -= float(nx) / 2. * (float(padding) - 1)
+        # the zero-displacement peak of the padded correlation sits on sample (n*padding)//2: refer it to sample n//2
+        # of the unpadded frame (for odd n and even padding, n/2*(padding-1) was half a pixel off)
+        cy -= (ny * padding) // 2 - ny // 2
+        cx -= (nx * padding) // 2 - nx // 2
 
         centroids[:, frame] = cx, cy
 
